@@ -371,6 +371,9 @@ def _coverage(v, rs, re, skip):
         a, b = skip
         lo = min([vpos] + [n[0] for n in norms])
         hi = max([vend] + [n[0] + len(n[1]) for n in norms])
+        if a <= lo and hi <= b and all(len(ref) == len(alt) for _, ref, alt in norms):
+            # a substitution whose bases all lie inside the reference skip: the read has no base there, it does not overlap it
+            return "none"
         if lo < b and a < hi:
             return "partial"
         for pos, ref, alt in norms:
@@ -847,7 +850,7 @@ class Skip(_C06Base):
     """One variant and a read with a reference skip (N) at every place."""
 
     name = "skip"
-    required_cover = ["fully covered snv carried=alt", "fully covered ins carried=alt", "fully covered del carried=ref", "variant right after the skip", "variant right before the skip", "carried allele detected"]
+    required_cover = ["fully covered snv carried=alt", "fully covered ins carried=alt", "fully covered del carried=ref", "variant right after the skip", "variant right before the skip", "carried allele detected", "substitution inside the skipped bases"]
 
     def shapes(self, tier):
         L = 7 if tier == "quick" else 10
@@ -867,6 +870,8 @@ class Skip(_C06Base):
             e.assume(False)
         skips = [(a, a + n) for n in (1, 2) for a in range(1, L - n)]
         skip = e.choice("skip", skips)
+        if skip[0] <= v.pos and v.pos + len(v.ref) <= skip[1] and v.kind in ("snv", "mnp"):
+            e.cover("substitution inside the skipped bases")
         if v.pos == skip[1]:
             e.cover("variant right after the skip")
         if v.pos + len(v.ref) == skip[0]:
